@@ -2,6 +2,7 @@
 (detect_protoclusters_and_signatures with dynamic profiles and rules produced by the real parser)
 against the sweep model, plus an implementation-side oracle (components of the proximity graph)."""
 import itertools
+import re
 
 import common
 import detect_util
@@ -223,6 +224,91 @@ def gen_layout(rng, cutoffs, circular, scenario):
     return max(length, 1), genes
 
 
+def rotate_layout(genes, offset, length):
+    """ the same ring read from another origin; None if a gene would be cut by the new origin """
+    out = []
+    for name, [(start, end, strand)] in genes:
+        new_start = (start + offset) % length
+        new_end = new_start + (end - start)
+        if new_end > length:
+            return None
+        out.append((name, [(new_start, new_end, strand)]))
+    return out
+
+
+def gen_focus(rng):
+    """ focused layouts for the later stages (apply_extenders, merge_over_origin): one rule 'p0 EXTENDERS <p1...>' (and
+        sometimes a second plain rule), short genes whose gaps sit on the boundaries of the extender walk (two chains one
+        cutoff apart with an extender gene half way), long genes lying over several short ones, and - on circular
+        records - the origin put into any of the gaps, so that chains of three and more clusters meet at the origin
+        -> (length, circular, rules, genes, hits) """
+    circular = rng.random() < 0.75
+    cut_kb = rng.choice([1, 1, 2])
+    cut = cut_kb * 1000
+    ext = rng.choice(["p1", "p1", "p1", "cds(p1 or p2)", "cds(p1 and not p3)"])
+    rules = [(cut_kb, rng.choice([0, 0, 1, 3]), rng.choice(["p0", "p0", "p0", "p0 or p2"]), ext, [])]
+    if rng.random() < 0.35:
+        rules.append((rng.choice([1, 2, 5]), rng.choice([0, 1, 10]), rng.choice(["p0", "p3", "p0 or p1", "p1"]),
+                      rng.choice([None, None, "p3", "p1"]), [0] if rng.random() < 0.4 else []))
+    n_genes = rng.choice([3, 4, 5, 5, 6, 7, 8])
+    gaps = [0, 1, cut // 2 - 51, cut // 2 - 50, cut // 2 - 50, cut // 2 - 50, cut // 2 - 49, cut // 2, cut - 101, cut - 100,
+            cut - 1, cut, cut + 1, 3 * cut, 3 * cut]
+    genes, seen = [], set()
+    pos = rng.choice([0, 50, 300])
+    short_end = None
+    for i in range(n_genes):
+        length = rng.choice([100, 100, 100, 100, 300, 900])
+        if rng.random() < 0.2 and genes:
+            # a long gene starting inside (or with) the previous one and lying over what follows
+            ps_, pe_ = genes[-1][1][0][:2]
+            start = rng.choice([ps_, ps_ + 1, (ps_ + pe_) // 2, pe_ - 1])
+            length = rng.choice([pe_ - start + 1, 600, 900, 1500, 3000])
+            short_end = pe_
+        else:
+            start = pos
+        end = start + length
+        if (start, end) not in seen:
+            seen.add((start, end))
+            genes.append((f"g{i}", [(start, end, rng.choice([1, 1, -1]))]))
+        if short_end is not None and rng.random() < 0.7:
+            # the next gene follows the short gene, under the long one
+            pos = short_end + rng.choice([0, 1, 100, 200, 400])
+        else:
+            pos = max(pos, end) + rng.choice(gaps)
+        short_end = None
+    first = min(s for _, [(s, _, _)] in genes)
+    last = max(e for _, [(_, e, _)] in genes)
+    hits = {}
+    for name, _ in genes:
+        profs = set()
+        role = rng.random()
+        if role < 0.5:
+            profs.add("p0")
+        elif role < 0.85:
+            profs.add("p1")
+        for extra, prob in (("p0", 0.05), ("p1", 0.05), ("p2", 0.15), ("p3", 0.12)):
+            if rng.random() < prob:
+                profs.add(extra)
+        if profs:
+            hits[name] = profs
+    if not circular:
+        return last + rng.choice([0, 1, 50, 1000, 6000]), False, rules, genes, hits
+    length = last + max(1, rng.choice(gaps + [5 * cut, 12000]) - first)
+    # the origin goes into one of the gaps: candidates are the ends and the middle of every stretch no gene covers
+    free, reach = [], 0
+    for _, [(start, end, _)] in sorted(genes, key=lambda g: g[1][0][0]):
+        if start > reach:
+            free.append((reach, start))
+        reach = max(reach, end)
+    free.append((reach, length))
+    lo, hi = rng.choice(free)
+    cut_at = rng.choice([lo, hi, (lo + hi) // 2, min(hi, lo + 1), max(lo, hi - 1)])
+    rotated = rotate_layout(genes, (-cut_at) % length, length)
+    if rotated is not None and rng.random() < 0.85:
+        genes = rotated
+    return length, True, rules, genes, hits
+
+
 def enc_cond(cond):
     """ a parsed rule_parser condition object -> flat encoding of the Gallina type C01.Model.cond """
     kind = type(cond).__name__
@@ -359,16 +445,153 @@ def neighbourhood_verdict(meta, protos):
     return None
 
 
+def arc_gap(a, b, length, circular):
+    """ bases between two arcs (start, end) - an arc over the origin is (start, length + end) -; 0 when they share a base """
+    (s1, e1), (s2, e2) = a, b
+    if not circular:
+        return max(max(s1, s2) - min(e1, e2), 0)
+    if e1 - s1 >= length or e2 - s2 >= length:
+        return 0
+    if (s2 - s1) % length < e1 - s1 or (s1 - s2) % length < e2 - s2:
+        return 0
+    return min((s2 - e1) % length, (s1 - e2) % length)
+
+
+def arcs_share_base(a, b, length, circular):
+    (s1, e1), (s2, e2) = a, b
+    if not circular:
+        return max(s1, s2) < min(e1, e2)
+    if e1 - s1 >= length or e2 - s2 >= length:
+        return True
+    return (s2 - s1) % length < e1 - s1 or (s1 - s2) % length < e2 - s2
+
+
+def core_arc(core, length):
+    """ a reported core [(start, end, strand)...] as an arc; None = not a span """
+    if len(core) == 1:
+        return (core[0][0], core[0][1])
+    if len(core) == 2 and core[0][1] == length and core[1][0] == 0:
+        return (core[0][0], length + core[1][1])
+    return None
+
+
+def separation_verdict(meta, protos):
+    """ maximality, every rule (EXTENDERS and SUPERIORS included): two protoclusters reported for one rule are never closer
+        than the rule's cutoff (ring distance on a circular record; 0 when the cores share a base) - they would be one group.
+        Independent interval arithmetic on the implementation's output. """
+    length, circular, rules = meta["length"], meta["circular"], meta["parsed"]
+    for ridx, rule in enumerate(rules):
+        arcs = [(core_arc(p[1], length), p[1]) for p in protos if p[0] == ridx]
+        for (a, ca), (b, cb) in itertools.combinations(arcs, 2):
+            if a is None or b is None:
+                continue
+            gap = arc_gap(a, b, length, circular)
+            if gap < rule["cutoff"]:
+                # recorded class C03-K7: circular record only (on a linear record the start-sorted adjacent scan of
+                # merge_over_origin is complete)
+                cls = "merge_scan_adjacent_only" if circular else "cores_closer_than_cutoff"
+                return cls, (f"rule r{ridx}: two protoclusters with cores {ca} and {cb} are {gap} apart, closer than the "
+                             f"cutoff {rule['cutoff']}: not maximal groups")
+    return None
+
+
+EXT_TOKEN = re.compile(r"\s*(cds|and|or|not|\(|\)|p\d+)")
+
+
+def extender_holds(text, profiles):
+    """ independent evaluation of an EXTENDERS condition on ONE gene with the given profile names (cds(...) of a single
+        gene is its content); None = not a condition this small evaluator covers """
+    pos, tokens = 0, []
+    text = text.strip()
+    while pos < len(text):
+        match = EXT_TOKEN.match(text, pos)
+        if not match:
+            return None
+        tokens.append(match.group(1))
+        pos = match.end()
+    expr = " ".join("" if t == "cds" else (str(t in profiles) if t.startswith("p") else t) for t in tokens)
+    try:
+        return bool(eval(expr, {"__builtins__": {}}, {}))     # only True/False/and/or/not/parentheses reach this point
+    except Exception:  # pylint: disable=broad-except
+        return None
+
+
+def extender_verdict(meta, protos):
+    """ rules with EXTENDERS: every gene that satisfies the extender condition and shares a base with the core of a
+        reported protocluster of the rule lies in that core (distance 0 from the core: it is admitted whatever its shape
+        or place in the gene order) """
+    length, circular = meta["length"], meta["circular"]
+    for ridx, line in enumerate(meta["rules"]):
+        if " EXTENDERS " not in line:
+            continue
+        ext = line.split(" EXTENDERS ", 1)[1]
+        for name, parts in meta["genes"]:
+            holds = extender_holds(ext, set(meta["hits"].get(name, ())))
+            if not holds:
+                continue
+            arc = arc_of(parts, length)
+            for p in protos:
+                if p[0] != ridx:
+                    continue
+                core = core_arc(p[1], length)
+                if core is None or not arcs_share_base(arc, core, length, circular):
+                    continue
+                inside = in_parts(arc, p[1], length) if circular else in_parts(arc, p[1])
+                if not inside:
+                    return "extender_overlapping_core_not_admitted", (
+                        f"rule r{ridx}: gene {name} {parts} satisfies EXTENDERS ({ext}) and overlaps the core {p[1]} "
+                        f"but was not admitted to it")
+    return None
+
+
+def window_fills_record(meta):
+    """ input-level class of C03-K8: a circular record on which the cutoff window of some gene with hits covers the
+        whole record, so that _extend_area_location returns one part and circular_origin stays 0 """
+    if not meta["circular"]:
+        return False
+    length = meta["length"]
+    for name, parts in meta["genes"]:
+        if name not in meta["hits"]:
+            continue
+        glen = sum(e - s for s, e, _ in parts)
+        for rule in meta["parsed"]:
+            if 2 * min(rule["cutoff"], (length - glen) // 2 + 1) + glen >= length:
+                return True
+    return False
+
+
+def anchors_verdict(meta, anchors):
+    """ the anchoring genes of every rule (model of apply_cluster_rules, equal to the implementation's whenever the
+        protoclusters agree) are those of the specification: each rule evaluated over the whole record with the ring
+        distance on a circular record (Gallina anchors_spec, function id 6) """
+    spec = meta.get("anchors_spec")
+    if spec is None or anchors is None or spec == anchors:
+        return None
+    diff = {r: (sorted(anchors.get(r, [])), sorted(spec.get(r, []))) for r in set(anchors) | set(spec)
+            if sorted(anchors.get(r, [])) != sorted(spec.get(r, []))}
+    cls = "anchor_window_full_record" if window_fills_record(meta) else "anchors_wrong"
+    return cls, (f"anchoring genes per rule (got, expected by ring distance over the whole record): {diff}")
+
+
 RULE_FULL = ("full pipeline: linear and circular records (2:1 circular), 1-10 single-exon genes on both strands incl. nested/overlapping "
              "ones with gaps on {0, 1, cutoff-1, cutoff, cutoff+1, far} and, on circular records, a first/last gap across the origin on "
              "the same boundaries and (12 %) one origin-spanning two-part gene; 1-4 rules from the real parser with cutoffs drawn "
              "from two of {1, 2, 5, 20} kb, neighbourhoods {0, 1, 3, 10} kb, conditions from 12 templates (single, and, or, not, "
              "minimum, cds), EXTENDERS (35 %), SUPERIORS (35 %); 0-5 dynamic profile hits per gene; scenarios 'cache' (wide, narrow, "
              "wide cutoffs with a partner gene across the origin) and 'origin' bias a quarter of the circular cases; genes have "
-             "pairwise different (start, end) because the order of equal-key anchors follows set iteration order; six fixed "
+             "pairwise different (start, end) because the order of equal-key anchors follows set iteration order; fixed "
              "boundary records (last chain exactly one cutoff / one base less from an origin-spanning gene or from the first "
-             "chain through the origin) run first; every reported protocluster's location is also checked against an "
-             "independent neighbourhood oracle; "
+             "chain through the origin; SUPERIORS with a core over the origin and the same genes rotated; an extender-bridged "
+             "chain over the origin; record lengths 4100/4101 around the point where the cutoff window fills the record) run "
+             "first; plus 1500/12000 'focus' records for apply_extenders and merge_over_origin: one rule 'p0 EXTENDERS ...' "
+             "(35 % a second rule), 3-8 short genes with gaps on {0, 1, cutoff/2-51..cutoff/2, cutoff-101, cutoff-100, cutoff-1, "
+             "cutoff, cutoff+1, 3 cutoff} (two chains one cutoff apart with an extender gene half way), 20 % long genes starting "
+             "inside the previous gene and lying over the following ones, 75 % circular with the origin put at an end or the "
+             "middle of any gene-free stretch (chains of three and more clusters meeting at the origin); every reported "
+             "protocluster is checked against independent oracles evaluated on the implementation's output: chains (rules "
+             "without EXTENDERS/SUPERIORS), superiors (linear), separation (all rules: cores of one rule >= cutoff apart), "
+             "extenders (every gene satisfying EXTENDERS that shares a base with a core of its rule lies in it), neighbourhood, "
+             "and the anchoring genes against the Gallina specification anchors_spec (function id 6); "
              "non-trivial = at least one protocluster reported or an exception raised")
 
 
@@ -469,6 +692,32 @@ def run_full(chk, recorded):
                 chk.count("full_boundary")
                 for lst, item in zip((cases, impl_outs, metas), built):
                     lst.append(item)
+    # fixed records of the third pass: SUPERIORS on a circular record with the inferior's / the superior's core over the
+    # origin and the same genes read from another origin (reports decided under C03-K1 / C07 F38: correspondence only),
+    # the extender-bridged chain over the origin that merge_over_origin does join (seed layout), and the two short
+    # records around the length at which the cutoff window stops filling the record (C03-K8 boundary)
+    sup = "RULE r0 CATEGORY c CUTOFF 1 NEIGHBOURHOOD 0 CONDITIONS p0\nRULE r1 CATEGORY c SUPERIORS r0 CUTOFF 1 NEIGHBOURHOOD 0 CONDITIONS p1"
+    ext = "RULE r0 CATEGORY c CUTOFF 1 NEIGHBOURHOOD 0 CONDITIONS p0 EXTENDERS p1"
+    win = "RULE r0 CATEGORY c CUTOFF 2 NEIGHBOURHOOD 0 CONDITIONS p0 and p1"
+    fixed = []
+    for off in (0, 5000, 1000):
+        fixed.append((10000, sup, [("g0", [(9700, 9800, 1)]), ("g1", [(100, 200, 1)])], {"g0": {"p1"}, "g1": {"p0", "p1"}}, off))
+    for off in (0, 3000):
+        fixed.append((10000, sup, [("g0", [(9700, 9800, 1)]), ("g1", [(100, 200, 1)]), ("g2", [(600, 700, 1)])],
+                      {"g0": {"p0"}, "g1": {"p0", "p1"}, "g2": {"p1"}}, off))
+    for off in (0, 3000, 9000):
+        fixed.append((10000, ext, [("g0", [(100, 200, 1)]), ("g1", [(650, 750, 1)]), ("g2", [(1200, 1300, 1)]), ("g3", [(5000, 5100, 1)]),
+                                   ("g4", [(9500, 9600, 1)])],
+                      {"g0": {"p0"}, "g1": {"p1"}, "g2": {"p0"}, "g3": {"p0"}, "g4": {"p0"}}, off))
+    for length in (4100, 4101):
+        fixed.append((length, win, [("g0", [(100, 200, 1)]), ("g1", [(length - 200, length - 100, 1)])], {"g0": {"p0"}, "g1": {"p1"}}, 0))
+    for length, text, genes, hits, off in fixed:
+        genes = rotate_layout(genes, off, length)
+        built = genes and build_case(chk, length, True, text, genes, hits, "boundary")
+        if built:
+            chk.count("full_boundary")
+            for lst, item in zip((cases, impl_outs, metas), built):
+                lst.append(item)
     for _ in range(total):
         circular = rng.random() < 0.67
         scenario = rng.choice(["plain", "plain", "cache", "origin"]) if circular else "plain"
@@ -492,6 +741,16 @@ def run_full(chk, recorded):
             chk.count("full_with_extenders")
         if any(r[4] for r in rules):
             chk.count("full_with_superiors")
+    # focused layouts for apply_extenders and merge_over_origin (extender-bridged chains, chains of three clusters over
+    # the origin, long genes over several short ones)
+    for _ in range(1500 if chk.tier == "quick" else 12000):
+        length, circular, rules, genes, hits = gen_focus(rng)
+        built = build_case(chk, length, circular, rules_text(rules), genes, hits, "focus")
+        if not built:
+            continue
+        for lst, item in zip((cases, impl_outs, metas), built):
+            lst.append(item)
+        chk.count("focus_circular" if circular else "focus_linear")
     return cases, impl_outs, metas
 
 
@@ -501,6 +760,9 @@ def judge_full(chk, cases, impl_outs, metas, known):
     spec_outs = common.run_driver([[c[0], 4] + c[2:] for c in cases])
     anchor_outs = common.run_driver([[c[0], 3] + c[2:] for c in cases])
     stage_outs = common.run_driver([[c[0], 5] + c[2:] for c in cases])
+    aspec_outs = common.run_driver([[c[0], 6] + c[2:] for c in cases])
+    for meta, aspec in zip(metas, aspec_outs):
+        meta["anchors_spec"] = decode_anchors(aspec)
     chk.corr_functions["detect_protoclusters_and_signatures (full pipeline, fn 2)"] = len(cases)
     disagreements = 0
     reproduced = set()
@@ -612,10 +874,11 @@ def spec_verdict(meta, impl, anchors):
     verdict = superiors_verdict(meta, protos, anchors)
     if verdict:
         return verdict
-    chain = chain_verdict(meta, protos, anchors)
-    if chain:
-        return chain
-    return neighbourhood_verdict(meta, protos)
+    for verdict in (chain_verdict(meta, protos, anchors), separation_verdict(meta, protos), extender_verdict(meta, protos),
+                    neighbourhood_verdict(meta, protos), anchors_verdict(meta, anchors)):
+        if verdict:
+            return verdict
+    return None
 
 
 def chain_verdict(meta, protos, anchors):
